@@ -1,4 +1,5 @@
 CONSTANTS
+  Collisions = {"none", "not3", "xy3"}
   Spellings = {"merged", "split", "apart"}
   Idents = {"UserId", "A", "Foo", "FooBar", "HTTPServer", "URL", "Init", "Default", "None"}
   Renames = {"none", "x", "foo-bar", "init"}
